@@ -206,4 +206,19 @@ theorem state_inventory :
     packageStateWrites = ["initGroupChain: groupChainImpl"] ∧
     forkFlagReads = [] := by decide
 
+/-! ### refusals and results -/
+
+/-- `removeFromCommonAncestor` ignores the result of `remove` and carries on with the next lower
+    height, and `remove` addresses the height slot as `count-1`: that is sound only because every
+    refusal of `remove` (`return false`) happens BEFORE its first effect — store write, count /
+    lastGroup update or sqlite statement — and, on a chain that represents a list, never fires inside
+    the loop (`Props/C19.lean: inv_remove`, `inv_rmto`). A refusal after an effect, or a new ignored
+    result, changes these lists. `save`'s error results are consumed by both callers. -/
+theorem result_discipline :
+    removeReturns = ["return true after 0 effects", "return false after 0 effects",
+                     "return true after 7 effects"] ∧
+    saveReturns = ["return err after 0 effects", "return err after 2 effects", "return nil after 5 effects"] ∧
+    resultUses = ["initGroupChain: save result assigned", "*groupChain.AddGroup: save result returned",
+                  "*groupChain.removeFromCommonAncestor: remove result ignored"] := by decide
+
 end Rangers.Props.C19Facts
